@@ -63,7 +63,7 @@ fn histories(depth: usize) -> Vec<Vec<Op>> {
 
 async fn run_history(server: &Lx, front: std::net::SocketAddr, target: std::net::SocketAddr, min_idle: usize, h: &[Op]) -> Vec<(String, String)> {
     let mut viols = vec![];
-    let client = make_client("pw", front, anytls_rs::padding::PaddingFactory::default(), pool_cfg(3600, 3600, min_idle));
+    let client = make_client("pw", front, anytls_rs::padding::PaddingFactory::default(), pool_cfg(1, 3600, min_idle));
     let mut active: Vec<(Arc<Stream>, Arc<Session>)> = vec![];
     let mut sessions: Vec<Arc<Session>> = vec![];
     // model: is session k still in the pool (inserted at creation, removed when handed out again)?
@@ -153,7 +153,7 @@ pub fn run(tier: Tier) -> i32 {
     let mut rep = Report::new("C13", tier, "model_checking");
     let thorough = tier.is_thorough();
     rep.assumptions = vec![
-        "pool timers and heartbeat are set to 1 h so that only the request history matters".into(),
+        "idle timeout and heartbeat timeout are 1 h so that only the request history matters; the check interval is 1 s only so that the heartbeat tasks of closed sessions (which hold the socket until their next tick) go away between histories".into(),
         "a request = Client::create_proxy_stream to a loopback echo target; finishing a request = dropping the stream and session handles, as the front-ends do when a connection ends".into(),
         "TLS connections are counted by a TCP relay in front of the real server".into(),
     ];
@@ -191,7 +191,7 @@ pub fn run(tier: Tier) -> i32 {
         fronts.extend(lx.extra_fronts.iter().copied());
         let mut targets = vec![];
         for k in 1..=fronts.len() {
-            targets.push(start_target(&format!("127.0.0.{k}"), TargetMode::Echo, vec![]).await);
+            targets.push(start_target(&format!("127.0.0.{k}"), TargetMode::EchoIdleClose, vec![]).await);
         }
         let mut out = vec![];
         let mut n = 0usize;
